@@ -2,7 +2,7 @@
    spec on the alphabet the interface supports. Generic in the hash functions. *)
 From Coq Require Import NArith ZArith List Bool String Lia.
 From LCP Require Import Base.CheckedMem Gen.Repo_codec Gen.Repo_aws Util.Hex Util.HexProofs
-     Aws.AwsBase Aws.SigV4Spec Aws.AwsSignModel.
+     Aws.AwsBase Aws.SigV4Spec Aws.AwsDoc Aws.AwsSignModel.
 Import ListNotations.
 Local Open Scope N_scope.
 
@@ -77,6 +77,31 @@ Proof.
   cbn [app no_space forallb]. rewrite !hexdigit_lower_not_space. exact IH.
 Qed.
 
+Lemma digit_range z : 48 <= digit z <= 57.
+Proof.
+  unfold digit. pose proof (Z.mod_pos_bound z 10 ltac:(lia)) as H.
+  assert (Z.to_N (z mod 10) <= 9) by lia. lia.
+Qed.
+
+Lemma digit_unreserved z : unreserved (digit z) = true.
+Proof.
+  pose proof (digit_range z) as [H1 H2]. unfold unreserved, is_digit.
+  apply N.leb_le in H1, H2. rewrite H1, H2. cbn [andb]. rewrite orb_true_r. reflexivity.
+Qed.
+
+Lemma uint_chars_unreserved u : unreserved_str (uint_chars u) = true.
+Proof. induction u; cbn [uint_chars unreserved_str forallb]; try reflexivity; exact IHu. Qed.
+
+Lemma dec_of_Z_unreserved z : unreserved_str (dec_of_Z z) = true.
+Proof.
+  destruct z; cbn [dec_of_Z]; [reflexivity | apply uint_chars_unreserved |].
+  cbn [unreserved_str forallb]. apply uint_chars_unreserved.
+Qed.
+
+Lemma unreserved_str_app x y :
+  unreserved_str x = true -> unreserved_str y = true -> unreserved_str (x ++ y) = true.
+Proof. unfold unreserved_str. rewrite forallb_app. intros -> ->. reflexivity. Qed.
+
 Section Hashes.
   Variable sha256 : bytes -> bytes.
   Variable hmac : bytes -> bytes -> bytes.
@@ -124,13 +149,6 @@ Section Hashes.
   Proof. reflexivity. Qed.
 
   (* ---------- S3, header variant ---------- *)
-  Definition s3_request (method bucket path datetime content : bytes) : request :=
-    {| rq_method := method; rq_path := path; rq_query := [];
-       rq_headers := [(b "Host", bucket ++ b ".s3.amazonaws.com");
-                      (b "X-Amz-Date", datetime);
-                      (b "X-Amz-Content-SHA256", content)];
-       rq_payload_hash := content |}.
-
   Lemma s3_headers_sigv4 key_id key_secret region method bucket path body t :
     unreserved_str bucket = true -> path_str path = true ->
     let datetime := datetime_str (gmtime t) in
@@ -166,13 +184,6 @@ Section Hashes.
     timestamps time_calls_aws_sign_svc_headers strftime_aws_sign_svc_headers t =
     Some [(b "datetime", datetime_str (gmtime t)); (b "date", date_str (gmtime t))].
   Proof. unfold timestamps. generalize (gmtime t). intros tmv. vm_compute. reflexivity. Qed.
-
-  Definition svc_request (svc region datetime content : bytes) : request :=
-    {| rq_method := b "POST"; rq_path := b "/"; rq_query := [];
-       rq_headers := [(b "Host", svc ++ b "." ++ region ++ b ".amazonaws.com");
-                      (b "X-Amz-Date", datetime);
-                      (b "X-Amz-Content-SHA256", content)];
-       rq_payload_hash := content |}.
 
   Lemma datetime_no_space tmv : no_space (datetime_str tmv) = true.
   Proof.
@@ -216,14 +227,6 @@ Section Hashes.
     Some [(b "datetime", datetime_str (gmtime t)); (b "date", date_str (gmtime t))].
   Proof. unfold timestamps. generalize (gmtime t). intros tmv. vm_compute. reflexivity. Qed.
 
-  Definition dynamodb_request (region op datetime content : bytes) : request :=
-    {| rq_method := b "POST"; rq_path := b "/"; rq_query := [];
-       rq_headers := [(b "Host", b "dynamodb." ++ region ++ b ".amazonaws.com");
-                      (b "X-Amz-Date", datetime);
-                      (b "X-Amz-Content-SHA256", content);
-                      (b "X-Amz-Target", b "DynamoDB_20120810." ++ op)];
-       rq_payload_hash := content |}.
-
   Lemma dynamodb_headers_sigv4 key_id key_secret region op body t :
     unreserved_str region = true -> unreserved_str op = true ->
     let datetime := datetime_str (gmtime t) in
@@ -254,4 +257,104 @@ Section Hashes.
     norm_app.
     reflexivity.
   Qed.
+
+  (* ---------- S3, query-string (presigned URL) variant ---------- *)
+  Lemma timestamps_s3_querystr t :
+    timestamps time_calls_aws_sign_s3_querystr strftime_aws_sign_s3_querystr t =
+    Some [(b "datetime", datetime_str (gmtime t)); (b "date", date_str (gmtime t))].
+  Proof. unfold timestamps. generalize (gmtime t). intros tmv. vm_compute. reflexivity. Qed.
+
+  Lemma date_unreserved tmv : unreserved_str (date_str tmv) = true.
+  Proof.
+    unfold date_str, pad4, pad2. cbn [app unreserved_str forallb].
+    rewrite !digit_unreserved. reflexivity.
+  Qed.
+
+  Lemma datetime_unreserved tmv : unreserved_str (datetime_str tmv) = true.
+  Proof.
+    unfold datetime_str, date_str, pad4, pad2. cbn [app unreserved_str forallb].
+    rewrite !digit_unreserved. reflexivity.
+  Qed.
+
+  Lemma s3_querystr_sigv4 key_id key_secret region method bucket path expiry t :
+    unreserved_str key_id = true -> unreserved_str region = true ->
+    unreserved_str bucket = true -> path_str path = true ->
+    let datetime := datetime_str (gmtime t) in
+    let date := firstn 8 datetime in
+    aws_sign_s3_querystr_m sha256 hmac key_id key_secret region method bucket path expiry t =
+    Some (sigv4_presigned_query sha256 hmac key_id key_secret datetime date region (b "s3") expiry
+                                method path [(b "Host", bucket ++ b ".s3.amazonaws.com")]).
+  Proof.
+    intros Hk Hr Hb Hp datetime date.
+    unfold aws_sign_s3_querystr_m. rewrite timestamps_s3_querystr.
+    subst date datetime. rewrite <- date_is_prefix.
+    pose proof (datetime_unreserved (gmtime t)) as Hdt.
+    pose proof (date_unreserved (gmtime t)) as Hd.
+    revert Hd Hdt. generalize (date_str (gmtime t)) (datetime_str (gmtime t)). intros d dt Hd Hdt.
+    pose proof (dec_of_Z_unreserved expiry) as He.
+    unfold sigv4_presigned_query, presign_params, sigv4_signature, string_to_sign,
+      canonical_request, canonical_query, canonical_headers, signed_headers, canon_headers, scope.
+    cbn [rq_method rq_path rq_query rq_headers rq_payload_hash map fst snd].
+    revert He. generalize (dec_of_Z expiry) as ex. intros ex He.
+    rewrite !uri_encode_app.
+    rewrite (uri_encode_unreserved true key_id Hk), (uri_encode_unreserved true region Hr),
+      (uri_encode_unreserved true d Hd), (uri_encode_unreserved true dt Hdt),
+      (uri_encode_unreserved true ex He), (uri_encode_path path Hp).
+    rewrite (trimall_id (bucket ++ b ".s3.amazonaws.com"))
+      by (apply no_space_app; [apply unreserved_no_space, Hb | reflexivity]).
+    unfold call_sign, aws_sign_m. abstract_hex hexf hx Hs Hh.
+    vm_compute. rewrite Hs. vm_compute. rewrite Hh. vm_compute.
+    norm_app.
+    reflexivity.
+  Qed.
+
+  (* ---------- the same four results, stated through the documented-request functions ---------- *)
+  Theorem s3_headers_doc key_id key_secret region method bucket path body t :
+    unreserved_str bucket = true -> path_str path = true ->
+    aws_sign_s3_headers_m sha256 hmac key_id key_secret region method bucket path body t =
+    let dt := datetime_str (gmtime t) in
+    let ca := doc_s3_headers sha256 hmac key_id key_secret region method bucket path body dt in
+    Some (fst ca, dt, snd ca).
+  Proof. intros Hb Hp. rewrite (s3_headers_sigv4 _ _ _ _ _ _ _ _ Hb Hp). reflexivity. Qed.
+
+  Theorem svc_headers_doc key_id key_secret region svc body t :
+    unreserved_str svc = true -> unreserved_str region = true ->
+    aws_sign_svc_headers_m sha256 hmac key_id key_secret region svc body t =
+    let dt := datetime_str (gmtime t) in
+    let ca := doc_svc_headers sha256 hmac key_id key_secret region svc body dt in
+    Some (fst ca, dt, snd ca).
+  Proof. intros H1 H2. rewrite (svc_headers_sigv4 _ _ _ _ _ _ H1 H2). reflexivity. Qed.
+
+  Theorem dynamodb_headers_doc key_id key_secret region op body t :
+    unreserved_str region = true -> unreserved_str op = true ->
+    aws_sign_dynamodb_headers_m sha256 hmac key_id key_secret region op body t =
+    let dt := datetime_str (gmtime t) in
+    let ca := doc_dynamodb_headers sha256 hmac key_id key_secret region op body dt in
+    Some (fst ca, dt, snd ca).
+  Proof. intros H1 H2. rewrite (dynamodb_headers_sigv4 _ _ _ _ _ _ H1 H2). reflexivity. Qed.
+
+  Theorem s3_querystr_doc key_id key_secret region method bucket path expiry t :
+    unreserved_str key_id = true -> unreserved_str region = true ->
+    unreserved_str bucket = true -> path_str path = true ->
+    aws_sign_s3_querystr_m sha256 hmac key_id key_secret region method bucket path expiry t =
+    Some (doc_s3_querystr sha256 hmac key_id key_secret region method bucket path expiry
+                          (datetime_str (gmtime t))).
+  Proof. intros H1 H2 H3 H4. rewrite (s3_querystr_sigv4 _ _ _ _ _ _ _ _ H1 H2 H3 H4). reflexivity. Qed.
 End Hashes.
+
+(* non-vacuity: the alphabet hypotheses are satisfiable by ordinary inputs, and the model really
+   produces an answer (here with a dummy 32-byte "hash") *)
+Example aws_hypotheses_satisfiable :
+  unreserved_str (b "my-bucket.example_1~") = true /\ path_str (b "/dir/file-1.txt") = true /\
+  unreserved_str (b "us-east-1") = true /\
+  (exists r, aws_sign_s3_headers_m (fun _ => repeat 7 32) (fun _ _ => repeat 9 32)
+               (b "AKID") (b "secret/+") (b "us-east-1") (b "GET") (b "my-bucket") (b "/k")
+               None 1700000000%Z = Some r).
+Proof. repeat split; try reflexivity. eexists. vm_compute. reflexivity. Qed.
+
+Example gmtime_examples :
+  datetime_str (gmtime 0) = b "19700101T000000Z" /\
+  datetime_str (gmtime 951782399) = b "20000228T235959Z" /\
+  datetime_str (gmtime 951868800) = b "20000301T000000Z" /\
+  datetime_str (gmtime 253402300799) = b "99991231T235959Z".
+Proof. vm_compute. repeat split; reflexivity. Qed.
